@@ -830,6 +830,11 @@ def model_specs(draw, **kw):
       g.new_input(shape, 'f32', dom=[0.5, 2.0] if positive else None,
                   mag=draw(st.sampled_from([0.3, 1.0, 1.0, 3.0])))
     nnodes = draw(st.integers(cfg['min_nodes'], cfg['max_nodes']))
+    # a sub-population of "hub" graphs: most operators read the first graph
+    # input, so one tensor has many consumer slots (>= 9 with repeated operands)
+    hub = bool(cfg.get('hubs', True) and cfg['max_nodes'] >= 4 and draw(st.integers(0, 11)) == 0)
+    if hub:
+      nnodes = draw(st.integers(5, 12))
     for _ in range(nnodes):
       if 'EMBEDDING_LOOKUP' in cfg['ops'] and draw(st.integers(0, 19)) == 0:
         _embedding_source(g)
@@ -839,6 +844,8 @@ def model_specs(draw, **kw):
       idx = draw(st.integers(0, len(rt) - 1))
       if draw(st.booleans()):
         idx = len(rt) - 1 - min(idx, len(rt) - 1) // 3
+      if hub and draw(st.integers(0, 4)):
+        idx = 0
       x = rt[idx]
       ops = _applicable(g, x, cfg)
       if not ops:
@@ -859,6 +866,9 @@ def model_specs(draw, **kw):
     if not outs:  # no node was applicable
       outs = [g.inputs[0]]
     outs = list(draw(st.permutations(outs)))
+    if cfg.get('dup_outputs', True) and draw(st.integers(0, 11)) == 0:
+      # a function returning one tensor under two names lists it twice
+      outs.insert(draw(st.integers(0, len(outs))), draw(st.sampled_from(outs)))
     order = [draw(st.integers(0, 3)) for _ in g.nodes]
     # unused graph inputs are legal in TFLite but the converter prunes them:
     used_inputs = [t for t in g.inputs if t in consumed or t in outs]
@@ -936,6 +946,15 @@ def features(spec):
   for si, sg in enumerate(spec['subgraphs']):
     order = emit_order(sg)
     pos = {ni: k for k, ni in enumerate(order)}
+    slots = {}
+    for n in sg['nodes']:
+      for t in n['in']:
+        if t >= 0 and sg['tensors'][t]['kind'] != 'const':
+          slots[t] = slots.get(t, 0) + 1
+    if slots and max(slots.values()) >= 9:
+      f.add('hub>=9_consumer_slots')
+    if len(set(sg['outputs'])) < len(sg['outputs']):
+      f.add('tensor_listed_twice_in_outputs')
     cons = {}
     for ni, n in enumerate(sg['nodes']):
       f.add('op:' + n['op'])
